@@ -237,7 +237,7 @@ func Positions(quick bool) Family {
 	for _, s := range seqs(menu, lenFor(quick, 2, 3)) {
 		defs = append(defs, m.Def{"Root": s})
 	}
-	return Family{Name: "positions", Defs: defs, Alphabet: []string{"a", "\n", "\r", "é", "日", " ", "\xff"}, MaxLen: lenFor(quick, 4, 5)}
+	return Family{Name: "positions", Defs: defs, Alphabet: []string{"a", "\n", "\r", "é", "日", " ", "\xff", "😀", "\xc3"}, MaxLen: lenFor(quick, 4, 5)}
 }
 
 // JSONEscapes: patterns with characters that JSON / HTML-safe JSON escapes (C16).
